@@ -336,7 +336,17 @@ def tokenize_deb822_file(sequence: Iterable[Union[str, bytes]]) -> Iterable[Deb8
 
             # If there are multiple whitespace-only lines, we combine them
             # into one token.
-            r = list(text_stream.takewhile(lambda x: _RE_WHITESPACE_LINE.match(x) is not None))
+            # Only lines ending on a newline can be merged (tokens containing a
+            # newline must end on one): an unterminated last line becomes a token
+            # of its own, and with implicit newlines each line gets its newline.
+            if auto_correct_newlines:
+                r = [x + "\n" for x in text_stream.takewhile(
+                    lambda x: not x.endswith("\n")
+                    and _RE_WHITESPACE_LINE.match(x + "\n") is not None)]
+            else:
+                r = list(text_stream.takewhile(
+                    lambda x: x.endswith("\n")
+                    and _RE_WHITESPACE_LINE.match(x) is not None))
             if r:
                 line += "".join(r)
 
